@@ -139,9 +139,7 @@ def check_deferral(tr, case, stats, script_steps=True):
             while k > 0 and RESYNC.match(cmds[k - 1]):
                 k -= 1
             head, tail = cmds[:k], cmds[k:]
-            if not tail or not tail[0].startswith("G92 E"):
-                out.append(viol(tr, r, "exit-sequence-malformed", "output %r" % (cmds,)))
-                continue
+            # (no demand on the shape of the re-positioning part here: C03/C04/C07 judge it)
             if head[len(head) - len(exit_):] != exit_ if exit_ else False:
                 out.append(viol(tr, r, "exit-script-missing-or-misplaced", "expected %r right before the re-positioning commands, output %r"
                                 % (exit_, cmds)))
